@@ -3,8 +3,8 @@
    fragment leaves every atom and bond of the sugar in place. The theorem about the code's text assembly
    (assemble_chains = Modify.modify for all hosts and fragments) is the substitution theorem, pending; the check
    decides Modify.modify_all against the library's output per input in extracted Coq. *)
-From Coq Require Import List Bool Arith Lia.
-From GV Require Import Base.Util Spec.Smiles Spec.Chem Spec.Iso Spec.Graft Spec.Modify Spec.Acyl Gen.Tables Proofs.AcylThm Model.PolyCarbon Proofs.PolyCarbonThm Proofs.PolyCarbonGen Proofs.PolyCarbonParse.
+From Coq Require Import Ascii String List Bool Arith Lia.
+From GV Require Import Base.Util Spec.Smiles Spec.Chem Spec.Iso Spec.Graft Spec.Modify Spec.Acyl Gen.Tables Proofs.AcylThm Model.PolyCarbon Proofs.PolyCarbonThm Proofs.PolyCarbonGen Proofs.PolyCarbonParse Proofs.PolyCarbonIso Proofs.TableKinds.
 Import ListNotations.
 Open Scope list_scope.
 
@@ -94,3 +94,20 @@ Example C04_parse_poly_carbon_isolated_applies :
   and (isolated_from 0 [(DbCis, 9); (DbCis, 12); (DbTrans, 15)])
       (acyl_ok (mkAcyl false false 20 [(DbCis, 9); (DbCis, 12); (DbTrans, 15)]) = true).
 Proof. split; [cbn; lia | vm_compute; reflexivity]. Qed.
+
+(* UNBOUNDED, iso ("6iC<n>...") and anteiso ("6aiC<n>...") chains of any length with any list of isolated double bonds the
+   specification accepts *)
+Theorem C04_parse_poly_carbon_iso ante n dbs :
+  dbs <> [] -> isolated_from 0 dbs -> acyl_ok (mkAcyl true ante n dbs) = true ->
+  parse_poly_carbon (name_of (mkAcyl true ante n dbs)) = acyl_text (mkAcyl true ante n dbs).
+Proof. exact (parse_poly_carbon_iso ante n dbs). Qed.
+Print Assumptions C04_parse_poly_carbon_iso.
+
+(* the two tables that decide how a group is attached agree, for every entry of the regenerated functional_groups table:
+   a token is in preserve_elem (the position's O / N is kept and carries the group) exactly when its fragment is not
+   written from a heteroatom of its own ("P" excepted: positioned "P" is read through the bridge branch of react) *)
+Theorem C04_preserve_elem_is_the_carried_groups tok frag :
+  In (tok, frag) functional_groups -> tok <> String.EmptyString -> frag <> String.EmptyString -> tok <> String.String "P"%char String.EmptyString ->
+  exists F, sem_str (s2l frag) = Some F /\ (fragment_kind F = KCarry <-> In tok preserve_elem).
+Proof. exact (preserve_elem_is_the_carried_groups tok frag). Qed.
+Print Assumptions C04_preserve_elem_is_the_carried_groups.
